@@ -13,6 +13,7 @@ from fractions import Fraction
 sys.path.insert(0, os.path.dirname(os.path.abspath(__file__)))
 import common
 from common import Check
+from c04 import cert_cmd      # certificate -> command line of the extracted Polytope checker (read-only reuse of C04's format)
 
 PID = "C02"
 
@@ -163,6 +164,8 @@ def gen_program(rng, idx):
         L.append(f"workspace = Workspace(RectangularRegion((0,0), 0, {W}, {W}))")
     n = rng.randint(2, 5)
     names = []
+    cont = dict(workspace=dict(kind="rect", w=W) if has_ws else None, objects={})
+    cur = [0]
 
     def dims():
         s = f"with width {rng.choice([0.5, 1, 2, 3])}, with length {rng.choice([0.5, 1, 2, 4])}"
@@ -191,7 +194,9 @@ def gen_program(rng, idx):
             elif mode2D and r < 0.7:
                 f.append("with requireVisible False")
         if has_ws and rng.random() < 0.2:
-            f.append(f"with regionContainedIn CircularRegion((0,0), {rng.choice([h, h + 2, W])})")
+            rad = rng.choice([h, h + 2, W])
+            f.append(f"with regionContainedIn CircularRegion((0,0), {rad})")
+            cont["objects"][str(cur[0])] = dict(kind="circle", r=rad)
         if not mode2D and rng.random() < 0.5:
             f.append(rng.choice(SHAPES))
         return [x for x in f if x]
@@ -211,6 +216,7 @@ def gen_program(rng, idx):
     L.append("ego = new Object " + ", ".join(ego))
     names.append("ego")
     for k in range(1, n):
+        cur[0] = k
         r = rng.random()
         if has_ws and r < 0.35:
             pos = "visible from " + rng.choice(names)
@@ -245,7 +251,106 @@ def gen_program(rng, idx):
             cst = rng.choice([-2, 0, 3])
             L.append(f"require{prob} {na}.position.x < {nb}.position.x + {cst}")
             preds.append(f"o[{a}].position.x < o[{b}].position.x + {cst}")
-    return dict(name=f"prog{idx}", src="\n".join(L) + "\n", seed=rng.randint(0, 10 ** 6), mode2D=mode2D, user_preds=preds)
+    return dict(name=f"prog{idx}", src="\n".join(L) + "\n", seed=rng.randint(0, 10 ** 6), mode2D=mode2D, user_preds=preds, containers=cont)
+
+
+POLYS = [[(-5, -5), (5, -5), (5, 0), (0, 0), (0, 5), (-5, 5)],                       # L
+         [(-6, -4), (6, -4), (6, 4), (3, 4), (3, -1), (-3, -1), (-3, 4), (-6, 4)],   # U
+         [(-5, -3), (5, -3), (7, 3), (-3, 3)],                                       # parallelogram
+         [(-4, -4), (4, -4), (4, 4), (-4, 4)]]
+
+
+def gen_assembly_spec(rng):
+    """[[ex,ey,ez,ox,oy,oz],...] of an L / U / C / slotted one-body non-convex assembly (cf. c04.gen_assembly)"""
+    kind = rng.choice(["L", "U", "U", "C", "slot"])
+    t, hh = rng.uniform(0.7, 1.3), rng.uniform(0.8, 2.0)
+    a, b = rng.uniform(3.0, 5.0), rng.uniform(2.5, 4.5)
+    if kind == "L":
+        return kind, [[a, t, hh, a / 2, t / 2, 0.0], [t, b, hh, t / 2, b / 2, 0.0]]
+    tb = t if kind != "slot" else rng.uniform(1.5, 2.5)
+    b1 = b + tb
+    b2 = b1 if kind != "C" else tb + rng.uniform(0.8, 3.0)
+    return kind, [[a, tb, hh, a / 2, tb / 2, 0.0], [t, b1, hh, t / 2, b1 / 2, 0.0], [t, b2, hh, a - t / 2, b2 / 2, 0.0]]
+
+
+def gen_geometry_program(rng, idx):
+    """3D programs aimed at the GEOMETRY of the built-in requirements: boxes tilted through their parentOrientation
+    (or their own pitch/roll) and tall boxes sampled right up to the edges of rectangular / polygonal workspaces and
+    `contained in` polygons / discs; a non-convex one-body mesh object with small objects sampled all over its
+    bounding box (inside its arms: must be rejected; in its cavity: fine)."""
+    fam = rng.choice(["tilt", "tilt", "poly", "meshhost", "meshhost"])
+    L = []
+    cont = dict(workspace=None, objects={})
+    pieces = {}
+    deg = lambda lo, hi: f"Range({lo}, {hi}) deg"
+
+    def tilt_specs():
+        r = rng.random()
+        hgt = rng.choice([2, 3, 5, 6])
+        s = [f"with width {rng.choice([0.5, 1, 2])}", f"with length {rng.choice([0.5, 1, 2])}", f"with height {hgt}"]
+        if r < 0.55:      # tilt ONLY through the parent orientation (own yaw/pitch/roll default or yaw only)
+            s.append(f"with parentOrientation ({rng.choice(['0', deg(0, 360), '90 deg'])}, {rng.choice([0, 30, 50, 70, -40])} deg, {rng.choice([0, 0, 20, -60])} deg)")
+            if rng.random() < 0.4:
+                s.append(f"facing {deg(0, 360)}")
+        elif r < 0.8:     # own pitch / roll
+            s.append(f"facing ({deg(0, 360)}, {rng.choice([0, 30, 60, -45])} deg, {rng.choice([0, 0, 25, -50])} deg)")
+        else:
+            s.append(f"facing {deg(0, 360)}")
+        return s
+
+    if fam in ("tilt", "poly"):
+        n = rng.randint(1, 3)
+        if fam == "tilt":
+            W = rng.choice([8, 10, 12])
+            L.append(f"workspace = Workspace(RectangularRegion((0,0), 0, {W}, {W}))")
+            cont["workspace"] = dict(kind="rect", w=W)
+            half = W / 2
+        else:
+            pts = rng.choice(POLYS)
+            L.append(f"poly = PolygonalRegion({pts})")
+            half = 7
+            if rng.random() < 0.5:
+                L.append("workspace = Workspace(poly)")
+                cont["workspace"] = dict(kind="poly", pts=pts)
+        for k in range(n):
+            name = "ego" if k == 0 else f"o{k}"
+            sp = tilt_specs()
+            if fam == "poly" and cont["workspace"] is None:
+                pos = "contained in poly"
+                cont["objects"][str(k)] = dict(kind="poly", pts=pts)
+            elif rng.random() < 0.3:
+                pos = "in workspace"
+            else:
+                pos = f"at (Range({-half}, {half}), Range({-half}, {half}), {rng.choice([0, 0, 1, 'Range(0, 2)'])})"
+            if rng.random() < 0.15 and fam == "tilt":
+                rad = rng.choice([3, 4])
+                sp.append(f"with regionContainedIn CircularRegion((0,0), {rad})")
+                cont["objects"][str(k)] = dict(kind="circle", r=rad)
+            if n > 1 and rng.random() < 0.4:
+                sp.append("with allowCollisions True")
+            L.append(f"{name} = new Object {pos}, " + ", ".join(sp))
+    else:
+        kind, spec = gen_assembly_spec(rng)
+        spec = [[round(v, 3) for v in p] for p in spec]
+        L.append("from c02_shapes import assembly")
+        L.append("workspace = Workspace(RectangularRegion((0,0), 0, 16, 16))")
+        cont["workspace"] = dict(kind="rect", w=16)
+        face = rng.choice(["", f", facing {rng.choice([0, 40, 135, -70])} deg", f", facing ({rng.choice([0, 60, 200])} deg, {rng.choice([0, 20, -35])} deg, {rng.choice([0, 0, 15])} deg)"])
+        L.append(f"ego = new Object at (0, 0, 0), with shape MeshShape(assembly({spec})){face}")
+        pieces["0"] = spec
+        ext = [max(p[3 + k] + p[k] / 2 for p in spec) - min(p[3 + k] - p[k] / 2 for p in spec) for k in range(3)]
+        hx_, hy_, hz_ = [round(e / 2 + 0.3, 2) for e in ext]
+        if face:
+            hx_ = hy_ = round(max(hx_, hy_), 2)
+        for k in range(1, rng.randint(2, 4)):
+            d = [rng.choice([0.2, 0.3, 0.4]) for _ in range(3)]
+            shp = rng.choice(["", "", ", with shape SpheroidShape()", ", with shape CylinderShape()", ", with shape ConeShape()"])
+            fc = rng.choice([f", facing {deg(0, 360)}", f", facing ({deg(0, 360)}, {deg(-40, 40)}, {deg(-30, 30)})", ""])
+            ac = ", with allowCollisions True" if k > 1 and rng.random() < 0.3 else ""
+            L.append(f"o{k} = new Object at (Range({-hx_}, {hx_}), Range({-hy_}, {hy_}), Range({-hz_}, {hz_})), "
+                     f"with width {d[0]}, with length {d[1]}, with height {d[2]}{shp}{fc}{ac}")
+    return dict(name=f"prog{idx}", src="\n".join(L) + "\n", seed=rng.randint(0, 10 ** 6), mode2D=False, user_preds=[],
+                family="geometry-" + fam, containers=cont, pieces=pieces)
 
 
 def gen_occlusion_program(rng, idx):
@@ -264,7 +369,8 @@ def gen_occlusion_program(rng, idx):
     L.append(f"o3 = new Object at (Range(-5, 5), Range(5, 10)), {kind}, with width 1, with length 1{occ}" + ("" if "requireVisible" in kind else rv))
     if rng.random() < 0.5:
         L.append(f"o4 = new Object at (Range(-6, 6), Range(5, 11)), {rng.choice(['visible from ego', 'not visible from ego', 'visible from o1'])}, with width 1, with length 1{occ}{rv}")
-    return dict(name=f"prog{idx}", src="\n".join(L) + "\n", seed=rng.randint(0, 10 ** 6), mode2D=mode2D, user_preds=[], family="occlusion")
+    return dict(name=f"prog{idx}", src="\n".join(L) + "\n", seed=rng.randint(0, 10 ** 6), mode2D=mode2D, user_preds=[], family="occlusion",
+                containers=dict(workspace=dict(kind="rect", w=30), objects={}))
 
 
 def scen_tokens(r):
@@ -320,6 +426,19 @@ def check_programs(c, exe, jobs):
             c.hist("scenes:accepted")
             c.hist("scenes:iterations>1" if sc["iterations"] > 1 else "scenes:first-try")
             c.hist("scenes:vis-checks", sc["vis_checks"])
+            for k, v in (sc.get("indep") or {}).items():
+                c.hist("indep:" + k, v)
+            # certified overlaps: keep only those whose common-point certificate the extracted Coq checker accepts
+            keep = []
+            for b in sc["bad"]:
+                if b["kind"] == "overlap-exact":
+                    ok = common.run_driver(exe, [cert_cmd(b["cert"], b["A"], b["B"])])[0] == "1"
+                    c.hist("indep:overlap-certificate-" + ("accepted" if ok else "rejected"))
+                    if not ok:
+                        continue
+                    b = {k: v for k, v in b.items() if k not in ("A", "B", "cert")}
+                keep.append(b)
+            sc["bad"] = keep
             if sc["bad"]:
                 kinds = sorted({b["kind"] for b in sc["bad"]})
                 c.violation("scene-oracle", "an accepted scene violates a requirement when re-checked directly: " + ",".join(kinds),
@@ -347,7 +466,7 @@ def main():
     exe = common.build_ocaml(PID)
     quick = c.tier == "quick"
     rng = c.rng
-    nh, ns, npg = (150, 200, 36) if quick else (2400, 200, 600)
+    nh, ns, npg, ngeo = (150, 200, 36, 28) if quick else (2400, 200, 600, 500)
     hists = [gen_history(rng, i, ns) for i in range(nh)]
     jobs = []
     corpus_dir = os.path.join(common.VERIF, "corpus", PID)
@@ -356,9 +475,12 @@ def main():
             if f.endswith(".json"):
                 jobs.append(json.load(open(os.path.join(corpus_dir, f))))
     jobs += [gen_program(rng, i) if i % 3 else gen_occlusion_program(rng, i) for i in range(npg)]
+    jobs += [gen_geometry_program(rng, npg + i) for i in range(ngeo)]
     for j in jobs:
         j.setdefault("nscenes", 3 if quick else 5)
         j.setdefault("maxIterations", 120 if quick else 400)
+    if os.environ.get("VERIF_C02_NOHIST"):     # development aid: programs only
+        hists = []
     if c.replay:
         body = json.load(open(c.replay))
         case = body.get("case", {})
